@@ -120,6 +120,17 @@ def replay_fixed(sc):
     return not np.allclose(got, want), f"fixed dates [0,0.5,1,1.5], unit jumps, counts per interval {counts}: jump path {got.tolist()} vs running sum {want.tolist()}"
 
 
+def path_value_obligations(ctx, path, info):
+    """what a payoff reads: value() is jump component + diffusion component at every time, every time it is read, and reading it leaves the
+    stored components alone (the multilevel path managers and the statistics read a path more than once)"""
+    jp, dp = [x for x in path.jump_path], [x for x in path.diffusion_path]
+    v1 = [x for x in path.value()]
+    v2 = [x for x in path.value()]
+    n = len(jp)
+    ctx.prove("C15.path_value_is_jump_plus_diffusion_each_time_it_is_read", AND(len(v1) == n, len(v2) == n, *[EQ(v1[i], jp[i] + dp[i]) for i in range(n)], *[EQ(v2[i], jp[i] + dp[i]) for i in range(n)]), info=info)
+    ctx.prove("C15.reading_the_path_value_leaves_its_components_unchanged", AND(*[EQ(path.diffusion_path[i], dp[i]) for i in range(n)], *[EQ(path.jump_path[i], jp[i]) for i in range(n)]), info=info)
+
+
 def h_fixed(ctx, ndates):
     shims.RNG.reset()
     shims.POISSON_MAX[0] = 2
@@ -156,6 +167,7 @@ def h_fixed(ctx, ndates):
         acc = acc + sigma * shims.NP.sqrt(times[i + 1] - times[i]) * normals[i]
         ctx.prove("C15.fixed.diffusion_component_is_running_sum_of_scaled_normals", EQ(path.diffusion_path[i + 1], acc), info=dict(info, date=i + 1))
     ctx.prove("C15.fixed.each_normal_used_once", len(normals) == ndates and len(proc._path_simulation._brownian_increments) == 0, info=info)
+    path_value_obligations(ctx, path, info)
 
 
 def h_jumptimes(ctx, ndates, pmax=2):
@@ -195,6 +207,7 @@ def h_jumptimes(ctx, ndates, pmax=2):
         for i in range(n - 1):
             acc = acc + sigma * shims.NP.sqrt(T[i + 1] - T[i]) * normals[i]
             ctx.prove("C15.jumptimes.diffusion_component_is_running_sum_of_scaled_normals", EQ(path.diffusion_path[i + 1], acc), info=dict(info, i=i))
+    path_value_obligations(ctx, path, info)
 
 
 # ---- epsilon refinement
